@@ -19,9 +19,16 @@ EXC = {"fault": InjectedFault, "base": InjectedBaseFault, "kbd": KeyboardInterru
        "recursion": RecursionError, "memory": MemoryError}
 
 
+class StepCapExceeded(BaseException):
+    """The traced operation executed more eligible line events than the step cap allows (a run never hangs:
+    the operation is cut off and its outcome is this exception, which the oracles then compare as any other)."""
+
+
 class CrashTracer:
-    def __init__(self, eligible, k=None, exc="fault", record=False):
-        """eligible(code) -> bool decides which frames' line events count."""
+    def __init__(self, eligible, k=None, exc="fault", record=False, cap=None):
+        """eligible(code) -> bool decides which frames' line events count.
+        cap: raise StepCapExceeded at every cap-th eligible line event (None = unbounded)."""
+        self.cap = cap
         self.eligible = eligible
         self.k = k
         self.exc = EXC[exc]
@@ -39,6 +46,8 @@ class CrashTracer:
             if n == self.k and self.fired is None:
                 self.fired = (frame.f_code.co_name, frame.f_lineno, frame.f_code.co_filename)
                 raise self.exc("injected at line event %d" % n)
+            if self.cap and n and n % self.cap == 0:
+                raise StepCapExceeded("step cap: %d eligible line events" % n)
         return self._local
 
     def _global(self, frame, event, arg):
